@@ -9,7 +9,7 @@ _reg('isa', ['I1'])
 _reg('jit', ['J1'])
 _reg('recip', ['R1', 'R2'])
 _reg('api', ['H1', 'D2', 'I7'])
-_reg('life', ['H6', 'H7'])
+_reg('life', ['H6', 'H7', 'H3'])
 
 PROPS = {
  'C11': dict(level='other', lemmas=['B1', 'B2', 'B3', 'B4', 'B5'],
@@ -42,5 +42,8 @@ PROPS = {
    explanation='TODO', trusted=[], outside=[]),
  'C16': dict(level='other', lemmas=['H7'],
    files=['src/vm_compiled.cpp', 'src/vm_compiled_light.cpp', 'src/dataset.cpp', 'src/virtual_memory.c', 'src/jit_compiler_x86.cpp', 'src/randomx.cpp'],
+   explanation='TODO', trusted=[], outside=[]),
+ 'C03': dict(level='other', lemmas=['H3', 'H1'],
+   files=['src/randomx.cpp', 'src/virtual_machine.cpp', 'src/virtual_machine.hpp', 'src/vm_compiled_light.cpp', 'src/vm_interpreted_light.cpp', 'src/vm_compiled.cpp', 'src/dataset.hpp', 'src/aes_hash.cpp'],
    explanation='TODO', trusted=[], outside=[]),
 }
